@@ -360,6 +360,7 @@ func (t *Terminfo) TParm(s string, p ...interface{}) string {
 	)
 
 	skip := emit
+	nest := 0 // conditionals opened inside the part being skipped
 
 	for {
 
@@ -380,13 +381,13 @@ func (t *Terminfo) TParm(s string, p ...interface{}) string {
 			// XXX Error
 			break
 		}
-		if skip == toEnd {
-			if ch == ';' {
-				skip = emit
-			}
-			continue
-		} else if skip == toElse {
-			if ch == 'e' || ch == ';' {
+		if skip == toEnd || skip == toElse {
+			switch {
+			case ch == '?':
+				nest++
+			case ch == ';' && nest > 0:
+				nest--
+			case ch == ';' || (ch == 'e' && skip == toElse && nest == 0):
 				skip = emit
 			}
 			continue
